@@ -468,6 +468,73 @@ theorem renderTable_lines (db : Db) (t : Table) (h : Readable db t) :
   rw [e2]
   simp [joinNL]
 
+theorem mapM_map_ok {α β γ ε} (f : α → Except ε β) (g : β → γ) : ∀ (l : List α) (r : List β), l.mapM f = .ok r →
+    l.mapM (fun i => do pure (g (← f i))) = .ok (r.map g) := by
+  intro l
+  induction l with
+  | nil => intro r h; simp [List.mapM_nil, pure, Except.pure] at h; subst h; rfl
+  | cons x xs ih =>
+    intro r h
+    rw [List.mapM_cons] at h
+    cases hx : f x with
+    | error e => simp [hx, bind, Except.bind] at h
+    | ok y =>
+      cases hxs : xs.mapM f with
+      | error e => simp [hx, hxs, bind, Except.bind] at h
+      | ok ys =>
+        simp [hx, hxs, bind, Except.bind, pure, Except.pure] at h
+        subst h
+        rw [List.mapM_cons, ih ys hxs]
+        simp [hx, bind, Except.bind, pure, Except.pure]
+
+theorem joinNL_append_flat (A X : List Str) (hA : A ≠ []) : joinNL (A ++ X) = joinNL A ++ X.flatMap (fun l => '\n' :: l) := by
+  induction X generalizing A with
+  | nil => simp
+  | cons x xs ih =>
+    have : A ++ x :: xs = (A ++ [x]) ++ xs := by simp
+    rw [this, ih (A ++ [x]) (by simp), joinNL_append A [x] hA (by simp)]
+    simp [joinNL]
+
+/-- a table of the covered kind that also has indexes, none of them a pk index -/
+def ReadableIx (db : Db) (t : Table) : Prop := Readable db { t with indexes := [] } ∧ ∀ ix ∈ t.indexes, ix.pk = false
+
+/-- the table statement followed by its index statements: `render_table` appends each non-pk index after an empty line -/
+theorem renderTable_lines_ix (db : Db) (t : Table) (h : ReadableIx db t) (ixl : List Str)
+    (hix : t.indexes.mapM (renderIndex t) = .ok ixl) :
+    renderTableWith db t [] = .ok (joinNL (tableLines db t) ++ (ixl.map fun l => '\n' :: l).flatMap (fun l => '\n' :: l)) := by
+  obtain ⟨h0, hpk⟩ := h
+  have hbase := renderTable_lines db { t with indexes := [] } h0
+  have hf1 : t.indexes.filter (·.pk) = [] := by
+    rw [List.filter_eq_nil_iff]; intro ix hi; simp [hpk ix hi]
+  have hf2 : t.indexes.filter (!·.pk) = t.indexes := by
+    rw [List.filter_eq_self]; intro ix hi; simp [hpk ix hi]
+  have hbody : createBody db t [] = createBody db { t with indexes := [] } [] := by
+    unfold createBody
+    simp only [hf1, List.filter_nil, List.mapM_nil]
+    rfl
+  have hnp := mapM_map_ok (renderIndex t) (fun l => '\n' :: l) t.indexes ixl hix
+  simp only [bind, Except.bind, pure, Except.pure] at hnp
+  unfold renderTableWith at hbase ⊢
+  rw [hbody]
+  cases hb : createBody db { t with indexes := [] } [] with
+  | error e => simp [hb, bind, Except.bind] at hbase
+  | ok body =>
+    simp only [hb, bind, Except.bind, pure, Except.pure, List.filter_nil, List.mapM_nil, List.append_nil] at hbase
+    simp only [bind, Except.bind, pure, Except.pure, hf2, hnp]
+    have hcm : t.comment = none := h0.comment
+    have hnote : t.note = [] := h0.note
+    have hnotes : (t.columns.filter (!·.note.isEmpty)) = [] := by
+      rw [List.filter_eq_nil_iff]
+      intro c hc
+      simp [(h0.colPlain c hc).2]
+    simp only [hcm, hnote, hnotes, List.flatMap_nil, List.append_nil, List.nil_append, List.isEmpty_nil, ↓reduceIte] at hbase ⊢
+    have hb2 : joinNL [lit "CREATE TABLE " ++ qualName t.schema t.name ++ lit " (", body, lit ");"]
+        = joinNL (tableLines db t) := by
+      have := hbase
+      simp only [Except.ok.injEq] at this
+      exact this
+    rw [joinNL_append_flat _ _ (by simp), hb2]
+
 theorem qualName_noBreak (sch n : Str) (hs : NoBreak sch) (hn : NoBreak n) : NoBreak (qualName sch n) := by
   intro ch hch
   unfold qualName at hch
